@@ -51,6 +51,7 @@ def annotate(lines, script):
                         continue
                     e[1] = v - left
                     t += left
+                    info["touched_wait"] = True
                     if res != "WOULDBLOCK":
                         raise ClockError("line %d: expected WOULDBLOCK, trace says %s" % (i, l))
                     break
@@ -153,6 +154,7 @@ class Conv:
         self.s.opens = [True] * nopens
         self.chunk = chunk
         self.steps = []
+        self.answered = 0          # number of the client's queries the cache has reacted to (truthfully or not)
         self.ok = True
         self.why = None
         for _ in range(npre):
@@ -169,13 +171,85 @@ class Conv:
         self._trace = tr
         return tr
 
+    def scan(self):
+        """(state, last complete query PDU of the current connection, number of complete queries sent so far).
+        Consecutive SEND lines are one byte stream (a transport that accepts a few bytes at a time)."""
+        state, last_q, nq = None, None, 0
+        buf = b""
+
+        def flush():
+            nonlocal buf, last_q, nq
+            if buf:
+                ps, _, _ = R.parse_pdus(buf)
+                for p in ps:
+                    if p["type"] in (R.SERIAL_QUERY, R.RESET_QUERY):
+                        last_q = p
+                        nq += 1
+                buf = b""
+        for l in self._trace:
+            w = l.split()
+            if not w:
+                continue
+            if w[0] == "SEND":
+                buf += bytes.fromhex(w[1]) if len(w) > 1 else b""
+                continue
+            flush()
+            if w[0] == "STATE":
+                state = int(w[1])
+            elif w[0] == "OPEN":
+                last_q = None
+        flush()
+        return state, last_q, nq
+
     def position(self):
+        """(state, pending query or None, END line).  A query is pending only until the cache has reacted to it:
+        a client that sits in SYNC after a broken answer is waiting for bytes that a correct cache never sends."""
+        lm = getattr(self, "_last_mark", 0)
+        if lm < len(self.s.evs):
+            self.drop_in_flight(lm)        # what was still in flight when the client closed the connection is lost
+        self._last_mark = len(self.s.evs)
         tr = self.model_trace()
         if not tr:
             return None, None, "no-trace"
         end = next((l for l in tr if l.startswith("END ")), None)
-        state, q = R.client_waiting(tr)
+        state, q, self.nq = self.scan()
+        if self.nq <= self.answered:
+            q = None
         return state, q, end
+
+    def mark(self):
+        return len(self.s.evs)
+
+    def drop_in_flight(self, mark):
+        """A connection that the client closes takes the bytes still in flight with it: cut the data delivered since
+        `mark` down to what the client had read when it first closed the transport (the mock transport is one stream
+        across connections, a real one is not)."""
+        tr = self.model_trace()
+        try:
+            ann = annotate([l for l in tr if l.split() and l.split()[0] not in ("INIT",)], self.s)
+        except ClockError:
+            return
+        before = sum(len(e[1]) for e in self.s.evs[:mark] if e[0] == "data")
+        total = sum(len(e[1]) for e in self.s.evs[mark:] if e[0] == "data")
+        if any(e[0] != "data" for e in self.s.evs[mark:]) or total == 0:
+            return
+        got = 0
+        cut_at = None
+        for a in ann:
+            if "bytes" in a:
+                got += len(a["bytes"])
+            elif a["kind"] == "CLOSE" and got > before:
+                cut_at = got - before
+                break
+        if cut_at is None or cut_at >= total:
+            return
+        data = b"".join(e[1] for e in self.s.evs[mark:])[:cut_at]
+        del self.s.evs[mark:]
+        self.deliver(data)
+        self.steps.append("in-flight-dropped:%d" % (total - cut_at))
+
+    def reacted(self):
+        self.answered = max(self.answered, getattr(self, "nq", 0))
 
     def opens_used(self):
         return sum(1 for l in self._trace if l.startswith("OPEN"))
@@ -204,6 +278,8 @@ class Conv:
         state, q, end = self.position()
         if end is None or "recv" not in end:
             return self.fail("client not parked in a receive (%s)" % end), None
+        if q is not None and q["ver"] in (0, 1) and q["ver"] < self.cache.ver:
+            self.cache.ver = q["ver"]      # RFC 8210 section 7: the cache answers in the version of the query
         if want_state == "sync" and not (state == 3 and q is not None):
             return self.fail("expected SYNC with a pending query, state=%s" % state), None
         if want_state == "established" and state != 1:
@@ -215,6 +291,7 @@ class Conv:
         if not ok:
             return False
         self.deliver(b"".join(self.cache.answer(q)))
+        self.reacted()
         self.steps.append("truthful:" + R.PDU_NAMES[q["type"]])
         return True
 
@@ -223,6 +300,7 @@ class Conv:
         if not ok:
             return False
         self.deliver(R.cache_reset(self.cache.ver))
+        self.reacted()
         self.steps.append("cache-reset")
         return True
 
@@ -252,6 +330,7 @@ class Conv:
             self.deliver(malform(self.rnd, pdus[k], how[4:]))
         elif how == "unexpected":
             self.deliver(R.hdr(self.cache.ver, R.RESET_QUERY, 0, 8))
+        self.reacted()
         self.steps.append("cut@%d/%d:%s%s" % (k, len(pdus), how, "+partial" if partial else ""))
         return True
 
